@@ -249,6 +249,38 @@ class Cli:
         self.emit({'ev': 'TREE', 'exitc': rc3, 'exitd': rc4, 'equal': sha(f + '.pipe.back') == want, 'desc': desc + ' stdin/stdout', 'detail': ''})
         self.runs += 4
 
+    def stdout_rm(self, rnd, k, opts, desc):
+        """single file compressed to stdout with --rm (stdout redirected to a file): the source may only disappear
+        once everything has been written to stdout; then the way back through stdin"""
+        d = os.path.join(self.root, 'p%d' % k)
+        os.makedirs(d, exist_ok=True)
+        f = os.path.join(d, 'src.dat')
+        data = gen_bytes(rnd, rnd.choice(['text', 'runs', 'dna']), rnd.choice([1, 5000, 300000, 1200000]))
+        open(f, 'wb').write(data)
+        want = sha(f)
+        outp = os.path.join(d, 'captured.knz')
+        log = os.path.join(d, 'strace.log')
+        self.emit({'ev': 'RUN', 'id': len(self.events), 'rm': True, 'force': False, 'mode': 'c', 'desc': desc + ' -o stdout --rm'})
+        with open(outp, 'wb') as fo:
+            rc1, _ = self.run(['-c', '-i', f, '-o', 'stdout', '--rm'] + opts, strace=log, stdout=fo)
+        se = sys_events(log, [(f, outp)])
+        self.nsys += len(se)
+        self.events += se
+        self.emit({'ev': 'FINAL', 'pair': 0, 'size': os.path.getsize(outp)})
+        back = os.path.join(d, 'back.dat')
+        self.emit({'ev': 'RUN', 'id': len(self.events), 'rm': True, 'force': False, 'mode': 'd', 'desc': desc + ' -d -o stdout --rm'})
+        with open(back, 'wb') as fo:
+            rc2, _ = self.run(['-d', '-i', outp, '-o', 'stdout', '--rm'], strace=log, stdout=fo)
+        se = sys_events(log, [(outp, back)])
+        self.nsys += len(se)
+        self.events += se
+        self.emit({'ev': 'FINAL', 'pair': 0, 'size': os.path.getsize(back)})
+        self.emit({'ev': 'TREE', 'exitc': rc1, 'exitd': rc2, 'equal': sha(back) == want and not os.path.exists(f) and not os.path.exists(outp),
+                   'desc': desc + ' -o stdout --rm', 'detail': ''})
+        self.runs += 2
+        if os.path.exists(log):
+            os.remove(log)
+
     def safety(self, rnd, k, opts):
         d = os.path.join(self.root, 'c%d' % k)
         os.makedirs(d, exist_ok=True)
